@@ -129,6 +129,44 @@ def unbound_key_commitments(ctx, lines, limit=2, slots=range(15)):
     return out
 
 
+def compensated_public_inputs(ctx, lines, limit=2):
+    """Forgery against a transcript that does not bind every byte of every public input: keep the proof, change two public
+    inputs p_i, p_j so that the public-input polynomial keeps its value at the evaluation challenge,
+         p_i' = p_i + d,   p_j' = p_j - d * L_i(z) / L_j(z)      (L_k the Lagrange basis polynomial of the row of input k)
+    for d touching different bytes (1, 2^8, 2^16, 2^128, 2^248). The verification equation is unchanged for the z the pair
+    was built with, so (proof, pis') is accepted exactly by a verifier whose challenges do not depend on the changed bytes.
+    z, n, omega come from the Lean model (`chals`); the rows from the verifier bytes."""
+    out = []
+    honest = [l for l in lines if l.split(" ", 1)[0] == "expect-ok:honest" and l.split(" ")[5].count(",") >= 1][:limit]
+    reqs = ["chals " + l.split(" ", 2)[2] for l in honest]
+    ans = ctx.model(reqs) if reqs else []
+    for l, a in zip(honest, ans):
+        d = dict(t.split("=", 1) for t in a.split() if "=" in t)
+        if not all(k in d for k in ("z", "n", "omega")):
+            continue
+        toks = l.split(" ")
+        vbytes = bytes.fromhex(toks[4])
+        pis = [int(t, 16) for t in toks[5].split(",")]
+        z, n, om = int(d["z"], 16), int(d["n"]), int(d["omega"], 16)
+        npi = int.from_bytes(vbytes[24:32], "big")
+        if npi != len(pis) or npi < 2:
+            continue
+        rows = [int.from_bytes(vbytes[len(vbytes) - 8 * (npi - k): len(vbytes) - 8 * (npi - k) + 8], "big") for k in range(npi)]
+        def lag(i):
+            wi = pow(om, i, R)
+            return (pow(z, n, R) - 1) * inv(n) % R * wi % R * inv((z - wi) % R) % R
+        pairs = [(0, 1), (npi - 1, 0), (npi - 2, npi - 1)]
+        for (i, j) in pairs:
+            if i == j or lag(rows[j]) == 0:
+                continue
+            for dl in (1, 1 << 8, 1 << 16, 1 << 128, 1 << 248):
+                q = list(pis)
+                q[i] = (q[i] + dl) % R
+                q[j] = (q[j] - dl * lag(rows[i]) % R * inv(lag(rows[j]))) % R
+                out.append("expect-reject:compensated-public-inputs-%d-%d %s %s" % (i, j, " ".join(toks[1:5]), ",".join(hx(x) for x in q)) + " " + toks[6])
+    return out
+
+
 def uncovered_evaluations(ctx, rng, n_circuits=1):
     """Forgery against a batched opening that does not cover one of the carried evaluations. The LYING copy of the Lean
     specification prover (lean/Plonk/Driver/Forge.lean, driver command `provelie`) shifts one evaluation (a_w, b_w, d_w, q_c,
